@@ -312,8 +312,8 @@ class Ctx:
     def add_failure(self, f):
         """f: dict with at least 'what' and 'input'.  Sorted into known / new findings."""
         for k in self.known:
-            if k.get("status") == "fixed":
-                continue
+            if k.get("status") != "open" or not k.get("match"):
+                continue   # only OPEN findings with a signature suppress anything; fixed entries suppress nothing
             sig = k.get("match", {})
             if all(re.search(v, str(f.get(key, ""))) for key, v in sig.items()):
                 if k["id"] not in [x["id"] for x in self.known_hits]:
